@@ -233,7 +233,7 @@ func statusKey(d *imap.StatusData, o *imap.StatusOptions) string {
 }
 
 func genListData(t *rapid.T, label string, withStatus *imap.StatusOptions) *imap.ListData {
-	d := &imap.ListData{Mailbox: mailboxName(t, label+".mbox"), Delim: rapid.SampledFrom([]rune{'/', '.', 0, '"', '\\', ' ', '%'}).Draw(t, label+".delim")}
+	d := &imap.ListData{Mailbox: mailboxName(t, label+".mbox"), Delim: rapid.SampledFrom([]rune{'/', '.', 0, '"', '\\', ' ', '%', '·', '→', 'é', 0x1F4C1}).Draw(t, label+".delim")}
 	for i, n := 0, rapid.IntRange(0, 3).Draw(t, label+".nattr"); i < n; i++ {
 		d.Attrs = append(d.Attrs, imap.MailboxAttr(gen.ValidAttr(t, label+".attr")))
 	}
@@ -1062,7 +1062,7 @@ func genNS(t *rapid.T, label string) []imap.NamespaceDescriptor {
 	}
 	var l []imap.NamespaceDescriptor
 	for i, n := 0, rapid.IntRange(1, 3).Draw(t, label+".n"); i < n; i++ {
-		l = append(l, imap.NamespaceDescriptor{Prefix: raw(t, label+".prefix"), Delim: rapid.SampledFrom([]rune{'/', '.', 0, '"', '\\'}).Draw(t, label+".delim")})
+		l = append(l, imap.NamespaceDescriptor{Prefix: raw(t, label+".prefix"), Delim: rapid.SampledFrom([]rune{'/', '.', 0, '"', '\\', '·', '→', 0x1F4C1}).Draw(t, label+".delim")})
 	}
 	return l
 }
